@@ -373,7 +373,10 @@ theorem nextStep_tot {env : Env} {t : Bool} {st st' : State} {tx : Tx} (rel : Re
     (hi : RInv rel st.coins (tx.inputs ++ later)) :
     ctot d st'.coins.coins + inSum rel d tx.inputs ≤ ctot d st.coins.coins ∧ RInv rel st'.coins later ∧
     st'.pools = st.pools ∧ st'.feePool + st'.tips ≤ st.feePool + st.tips + tx.fee := by
-  simp only [nextStep, Outcome.bind_eq_ok] at h
+  unfold nextStep at h
+  split at h
+  · cases h
+  simp only [Outcome.bind_eq_ok] at h
   obtain ⟨st1, h1, coins2, h2, minFee, -, h4⟩ := h
   obtain ⟨f1, f2, f3, f4, f5⟩ := faucetStep_tot rel d h1
   obtain ⟨r1, r2⟩ := removeFold_tot rel d t tx.inputs later st1.coins coins2 h2 hn (f2 _ hi)
